@@ -359,4 +359,10 @@ func main() {
 	genAccessYaml(hl, hdr, out)
 	genHandlers(hl, mb, hdr, out)
 	genConcurrency(hl, mb, hdr, out)
+	for _, g := range extraGenerators {
+		g(hl, mb, hdr, out)
+	}
 }
+
+// extraGenerators: further fact generators register themselves here from their own file's init().
+var extraGenerators []func(hl, mb *pkgFiles, hdr, out string)
